@@ -52,7 +52,7 @@ def tx1(ctx):
         what = "+".join(sorted((s.writes & TRACKED) | s.funcs)) or "dynamic"
         R.require(ok, "%s@%s" % (what, F.root_fn(s.body).id), s.call.where(), "%s %s runs on %s" % (s.verb, what, sorted(("tx@" + r[3:].rsplit(":", 1)[0].split("::{closure")[0].rsplit("::", 1)[-1]) if r.startswith("tx:") else r for r in recv)),
                   fail_msg="%s on %s in %s runs on %s: not inside a transaction of the step (a crash after it would persist data without its bookkeeping, or vice versa)" % (s.verb, what, s.body.id, sorted(recv)))
-    R.floor(n, 15, "dml-sites", "tracked DML / crsql function sites in the runtime")
+    R.floor(n, 8, "dml-sites", "tracked DML / crsql function sites in the runtime")
 
 
 def onecommit(ctx):
@@ -73,7 +73,7 @@ def onecommit(ctx):
             if not roots or not any(r.startswith(("pool:write", "pool:dedicated", "param:")) for r in roots):
                 continue  # read-pool snapshots and subscription databases are not the node database's writers
             writers.append((b, roots))
-    if not R.floor(len(writers), 8, "writer-bodies", "bodies beginning a transaction on a write-capable connection"):
+    if not R.floor(len(writers), 4, "writer-bodies", "bodies beginning a transaction on a write-capable connection"):
         return
     for b, roots in writers:
         root = F.root_fn(b).id
